@@ -363,7 +363,17 @@ def r14_4_5(rep: Report) -> None:
     else:
         rep.fail('R14.5', c2, 'ids 0..count-1', 'listing does not iterate range(self.count)', mc)
     txt = norm(mc)
-    for label, needle in (("id is the loop index", "'id': idx"),
+    ev = [d for d in ast.walk(mc) if isinstance(d, ast.Dict)
+          and any(isinstance(k, ast.Constant) and k.value == 'id' for k in d.keys)]
+    idv = None
+    if ev:
+        idv = {k.value: norm(v) for k, v in zip(ev[0].keys, ev[0].values) if isinstance(k, ast.Constant)}
+    if idv and idv.get('id') == 'idx' and idv.get('presentationTime') == 'presentation_time':
+        rep.ok('R14.5', c2, 'event id is the loop index, time is the running time')
+    else:
+        rep.fail('R14.5', c2, 'event id is the loop index, time is the running time',
+                 f'listed event is {idv}', mc)
+    for label, needle in (
                           ('starts at self.start', 'presentation_time = self.start'),
                           ('advances by interval', 'presentation_time += self.interval'),
                           ("time is listed", "'presentationTime': presentation_time"),
